@@ -235,7 +235,7 @@ func TestGovcReplay(t *testing.T) {
 	}()
 %s}
 `, cc.prop, o.Name(), o.Src, body.String())
-	base := filepath.Join(cc.s.vdir, "replays", sanitize(cc.prop+"-"+o.Name()))
+	base := filepath.Join(cc.outDir, "replays", sanitize(cc.prop+"-"+o.Name()))
 	goFile := base + "_test.go"
 	os.WriteFile(goFile, []byte(src), 0o644)
 	out, err := runOverlayTest(cc.s.repo, goFile, "TestGovcReplay")
